@@ -76,6 +76,8 @@
 #include <QUuid>
 #include <QXmlStreamReader>
 #include <iostream>
+#include <csignal>
+#include <unistd.h>
 #include <netinet/in.h>
 #include <netinet/tcp.h>
 #include <sys/socket.h>
@@ -133,6 +135,7 @@ struct Conn {
     qint64 rxBytes = 0, txBytes = 0;
     QString lastId;
     QString lastPrevid;
+    int smRequestsSent = 0, smAnswersSeen = 0;  // <r/> sent by the script / <a/> received: an <r/>-fence waits until they are equal
     QString lastCaps;  // node#ver of the last <c/> seen in a presence of this connection
     QString smSessionId;  // id of the stream-management session this connection carries
     // server-side XEP-0198 counters (the reference for C09)
@@ -247,7 +250,10 @@ struct Conn {
             if (!el.attribute(u"id"_s).isEmpty() && tag == u"iq") lastId = el.attribute(u"id"_s);
             return;
         }
-        if (tag == u"a" && ns == u"urn:xmpp:sm:3") o["h"] = el.attribute(u"h"_s);
+        if (tag == u"a" && ns == u"urn:xmpp:sm:3") {
+            o["h"] = el.attribute(u"h"_s);
+            smAnswersSeen++;
+        }
         if (tag == u"resume" && ns == u"urn:xmpp:sm:3") {
             o["h"] = el.attribute(u"h"_s);
             o["previd"] = el.attribute(u"previd"_s);
@@ -274,6 +280,7 @@ struct Conn {
     void send(const QByteArray &data)
     {
         if (!sock || closed) return;
+        smRequestsSent += data.count("<r xmlns='urn:xmpp:sm:3'/>") + data.count("<r xmlns=\"urn:xmpp:sm:3\"/>");
         txBytes += data.size();
         sock->write(data);
         sock->flush();
@@ -942,7 +949,7 @@ struct Case {
             if (!cn || cn->closed) return true;
             const QString fid = u"fence-%1"_s.arg(idx);
             if (st["sm"].toBool()) {
-                J({ { "ev", "srv_tx" }, { "c", c.index }, { "conn", cn->connIndex }, { "xml", "<r xmlns='urn:xmpp:sm:3'/>" }, { "fence", true } });
+                J({ { "ev", "srv_tx" }, { "c", c.index }, { "conn", cn->connIndex }, { "xml", "<r xmlns='urn:xmpp:sm:3'/>" }, { "fence", true }, { "sm_outbound", cn->smOutbound }, { "sm_session", cn->smSessionId } });
                 cn->send("<r xmlns='urn:xmpp:sm:3'/>");
             } else {
                 const QByteArray x = "<iq type='get' id='" + fid.toUtf8() + "' from='example.org'><ping xmlns='urn:xmpp:ping'/></iq>";
@@ -952,6 +959,14 @@ struct Case {
             }
             bool got = false;
             bool ok = spinUntil([&] {
+                if (st["sm"].toBool()) {
+                    // every <r/> the script ever sent on this connection has been answered (an earlier, not yet consumed <a/> does not count for this one)
+                    if (cn->smAnswersSeen >= cn->smRequestsSent) {
+                        got = true;
+                        return true;
+                    }
+                    return cn->closed;
+                }
                 for (int i = 0; i < cn->queue.size(); i++) {
                     const auto &o = cn->queue[i];
                     if ((st["sm"].toBool() && o["tag"].toString() == u"a") || (!st["sm"].toBool() && o["id"].toString() == fid)) {
@@ -1513,9 +1528,17 @@ struct Case {
     }
 };
 
+static void onCaseWatchdog(int)
+{
+    static const char msg[] = "\nCASE-WATCHDOG: the case did not return (a handler never came back)\n";
+    (void)!write(2, msg, sizeof(msg) - 1);
+    _exit(79);
+}
+
 int main(int argc, char **argv)
 {
     QCoreApplication app(argc, argv);
+    signal(SIGALRM, onCaseWatchdog);
     {
         QFile c(QString::fromLocal8Bit(qgetenv("VERIF_TLS_DIR")) + u"/cert.pem"_s), k(QString::fromLocal8Bit(qgetenv("VERIF_TLS_DIR")) + u"/key.pem"_s);
         if (c.open(QIODevice::ReadOnly)) g_certPem = c.readAll();
@@ -1529,6 +1552,8 @@ int main(int argc, char **argv)
         out["n"] = in["n"];
         printf("BEGIN %d\n", in["n"].toInt());
         fflush(stdout);
+        // client and scripted server share this thread: a client that never returns from a handler stalls the whole case
+        alarm(unsigned(in["watchdog"].toInt(180)));
         std::vector<QJsonObject> journal;
         g_journal = &journal;
         g_signals.clear();
@@ -1550,6 +1575,7 @@ int main(int argc, char **argv)
             }
             cs.settle(5, 300);
         }
+        alarm(0);
         QJsonArray ja;
         for (auto &o : journal) ja.append(o);
         out["journal"] = ja;
